@@ -40,7 +40,7 @@ def modules():
         import openfilter.filter_runtime.utils as utils
         from openfilter.filter_runtime.frame import Frame
         _mods.update(zq=zq, mq=mq, flt=flt, utils=utils, Frame=Frame, Filter=flt.Filter,
-                     orig=dict(zmq=zq.zmq, time_ns=zq.time_ns, sleep=zq.sleep, ftime=flt.time, mqtime=mq.time))
+                     orig=dict(zmq=zq.zmq, time_ns=zq.time_ns, sleep=zq.sleep, ftime=flt.time, mqtime=mq.time, udatetime=utils.datetime))
     return _mods
 
 
@@ -62,6 +62,13 @@ def install(world):
     shim.time_ns = world.time_ns
     flt.time = shim
     mq.time = world.time
+    real_dt = m['orig']['udatetime']
+
+    class VirtualDatetime(real_dt):
+        @classmethod
+        def now(cls, tz=None):
+            return real_dt.fromtimestamp(world.time(), tz)
+    m['utils'].datetime = VirtualDatetime
 
 
 def uninstall():
@@ -70,6 +77,7 @@ def uninstall():
     m['zq'].zmq, m['zq'].time_ns, m['zq'].sleep = o['zmq'], o['time_ns'], o['sleep']
     m['flt'].time = o['ftime']
     m['mq'].time = o['mqtime']
+    m['utils'].datetime = o['udatetime']
 
 
 def addr_of(idx, k, ipc):
@@ -134,6 +142,30 @@ class Pipeline:
             return {k: d.get(k) for k in ('origin', 'oinc', 'seq', 'uid')} if isinstance(d, dict) else None
 
         class SimFilter(Filter):
+            @classmethod
+            def normalize_config(cls, config):
+                config = super().normalize_config(config)
+                pipe.log((config.get('id'), config.get('inc')), 'normalize')
+                if pipe.hooks is not None:
+                    pipe.hooks(config, 'normalize', None)
+                return config
+
+            def init(self, config):
+                self.key = key = (config.id, config.inc)
+                pipe.filters[key] = self
+                self.beh = dict(config.beh or {})
+                pipe.log(key, 'init')
+                pipe.hook(self, 'init_pre')
+                super().init(config)
+                pipe.hook(self, 'init')
+
+            def fini(self):
+                pipe.log(self.key, 'fini')
+                try:
+                    pipe.hook(self, 'fini')
+                finally:
+                    super().fini()
+
             def setup(self, config):
                 self.key = key = (config.id, config.inc)
                 pipe.filters[key] = self
@@ -142,6 +174,7 @@ class Pipeline:
                 self.nsrc = 0
                 pipe.log(key, 'setup')
                 pipe.hook(self, 'setup')
+                pipe.log(key, 'setup_done')
 
             def shutdown(self):
                 pipe.log(self.key, 'shutdown')
